@@ -67,6 +67,40 @@ def dep_ok(depset, chosen):
     return all(sat(n) for n in depset.restrictions)
 
 
+def dep_ok_nonblock(depset, chosen):
+    """every clause has an alternative satisfied by the chosen packages; blockers count as satisfied here (checked separately)"""
+    from pkgcore.restrictions import boolean
+    from pkgcore.ebuild.atom import atom
+
+    def sat(node):
+        if isinstance(node, atom):
+            return True if node.blocks else any(node.match(p) for p in chosen)
+        if isinstance(node, boolean.OrRestriction):
+            return any(sat(c) for c in node.restrictions)
+        if isinstance(node, boolean.AndRestriction):
+            return all(sat(c) for c in node.restrictions)
+        raise TypeError(node)
+    return all(sat(n) for n in depset.restrictions)
+
+
+def blockers_of(depset):
+    """blocker atoms that apply unconditionally (not inside an any-of group)"""
+    from pkgcore.restrictions import boolean
+    from pkgcore.ebuild.atom import atom
+    out = []
+
+    def walk(node):
+        if isinstance(node, atom):
+            if node.blocks:
+                out.append(node)
+        elif isinstance(node, boolean.AndRestriction):
+            for c in node.restrictions:
+                walk(c)
+    for n in depset.restrictions:
+        walk(n)
+    return out
+
+
 def closed(chosen, attrs=("rdepend", "depend", "pdepend", "bdepend", "idepend")):
     return all(dep_ok(getattr(p, a), [q for q in chosen if q is not p or not a]) for p in chosen for a in attrs)
 
